@@ -267,5 +267,20 @@ def run(chk, prog):
                   "%s-kick: cells outside the grid contribute nothing (zeros flow in): %s" % (axis, why), "KickMap::apply:%s:source-guard" % axis)
         r4 += 1
     chk.floor("R4-sites", r4, 5)
+    # ---- R5: the reader honours what the writer stored --------------------------------------------------------
+    # the shift only comes out as stored if KickMap::apply gives every weight the source cell of its own stored index and reads the
+    # table with the writer's stride: decided under C01/R2 (source = destination + stored index - centre) and C08/R1, re-evaluated here
+    from . import C01 as c01, C08 as c08
+    sub = type(chk)("C01", chk.tier)
+    c01.run(sub, prog)
+    r5 = [i for i in sub.instances if i["rule"] == "R2" and "KickMap" in i["site"] and "-kick" in i["what"]]
+    for i in r5:
+        chk.check(i["ok"], "R5", i["site"], "(C01/R2) %s" % i["what"].split("\n")[0][:220], "C01-R2:%s" % i.get("key", "ok"))
+    sub8 = type(chk)("C08", chk.tier)
+    c08.run(sub8, prog)
+    r8 = [i for i in sub8.instances if i["rule"] == "R1" and "reader" in i["what"]]
+    for i in r8:
+        chk.check(i["ok"], "R5", i["site"], "(C08/R1) %s" % i["what"].split("\n")[0][:220], "C08-R1:%s" % i.get("key", "ok"))
+    chk.floor("R5-reader", len(r5) + len(r8), 10)
     chk.notes.append("C02: Lagrange/partition-of-unity identities for orders 1-4 over nodes read from updateSM/genHInfo; "
                      "exact-zero structure at f=0; frac/ipart pairing; bounds-guarded weights. Not decided: rounding over all floats.")
